@@ -144,7 +144,11 @@ func (t *Tree) Prove() (merkleRoot []byte, proofSet [][]byte, proofIndex uint64,
 	if t.head == nil || len(t.proofSet) == 0 {
 		return t.Root(), nil, t.proofIndex, t.currentIndex
 	}
-	proofSet = t.proofSet
+	// Work on a copy of the proof set: appending to t.proofSet itself would
+	// write into the spare capacity of the Tree's slice, where a later Push or
+	// Prove overwrites the elements of a proof returned earlier.
+	proofSet = make([][]byte, len(t.proofSet), len(t.proofSet)+8)
+	copy(proofSet, t.proofSet)
 
 	// The set of subtrees must now be collapsed into a single root. The proof
 	// set already contains all of the elements that are members of a complete
@@ -195,6 +199,11 @@ func (t *Tree) Prove() (merkleRoot []byte, proofSet [][]byte, proofIndex uint64,
 		proofSet = append(proofSet, current.sum)
 		current = current.next
 	}
+	// Return copies to prevent leaking pointers to internal data (as Root
+	// does): the elements are the sums of live subTrees.
+	for i := range proofSet {
+		proofSet[i] = append(proofSet[i][:0:0], proofSet[i]...)
+	}
 	return t.Root(), proofSet, t.proofIndex, t.currentIndex
 }
 
@@ -207,7 +216,8 @@ func (t *Tree) Push(data []byte) {
 	// The first element of a proof is the data at the proof index. If this
 	// data is being inserted at the proof index, it is added to the proof set.
 	if t.currentIndex == t.proofIndex {
-		t.proofSet = append(t.proofSet, data)
+		// Keep a copy: the caller is free to reuse its buffer for the next leaf.
+		t.proofSet = append(t.proofSet, append(data[:0:0], data...))
 	}
 
 	// Hash the data to create a subtree of height 0. The sum of the new node
@@ -270,7 +280,7 @@ func (t *Tree) PushSubTree(height int, sum []byte) error {
 	t.head = &subTree{
 		height: height,
 		next:   t.head,
-		sum:    sum,
+		sum:    append(sum[:0:0], sum...), // a copy: the caller keeps its slice
 	}
 
 	// Join subTrees if possible.
